@@ -70,15 +70,18 @@ def st_golden(cfgspec, knobs):
     return _ds.outcome_of(lambda: MazeDataset.from_config(_ds.make_cfg(cfgspec), load_local=False, save_local=False))
 
 
-def st_request(cfgspec, knobs, base_dir, plan, record):
+def st_request(cfgspec, knobs, base_dir, plan, record, extra=None):
     from maze_dataset import MazeDataset
+
+    flags = dict(knobs.get("request") or {})  # per-configuration request options (the statement's observe_at passes do_download=False)
+    flags.update(extra or {})
 
     _knobs(knobs)
     dk = sdisk.SimDisk(plan, record_data=record)
     with sdisk.Installed(dk, _clock(knobs)), smem.Installed(knobs.get("mem", 0)):
         try:
             cfg = _ds.make_cfg(cfgspec)
-            out = _ds.outcome_of(lambda: MazeDataset.from_config(cfg, local_base_path=base_dir, zanj=_zanj(knobs)))
+            out = _ds.outcome_of(lambda: MazeDataset.from_config(cfg, local_base_path=base_dir, zanj=_zanj(knobs), **flags))
         except sdisk.SimCrash:
             out = {"kind": "crashed"}
         dk.finalize()
@@ -391,7 +394,15 @@ def run_history(base: Base, sc, d, log, stats):
             continue
         F = cur()
         plan = arg
-        out = core.stage(st_request, base.cfg, base.knobs, d, plan, False)
+        if op == "request-noload":
+            # the caller forces regeneration (load_local=False): whatever lies under the name is irrelevant, the request must
+            # return fresh data and replace the file by a loadable one - judged exactly like a request that finds no file
+            plan = None
+            out = core.stage(st_request, base.cfg, base.knobs, d, None, False, {"load_local": False})
+            F = None
+            stats["hist_request_noload"] = stats.get("hist_request_noload", 0) + 1
+        else:
+            out = core.stage(st_request, base.cfg, base.knobs, d, plan, False)
         n_req += 1
         fired = out.get("fired") or {}
         for k_, n_ in fired.items():
@@ -515,6 +526,7 @@ def rand_knobs(rng: random.Random, n_mazes: int) -> dict:
         "zanj": {"compress": rng.random() < 0.6, "external_array_threshold": rng.choice([256, 256, 16, 0])},
         "clock": {"t0": float(rng.randrange(400_000_000, 4_000_000_000)), "steps": [rng.choice([0.0, 1.0, -3600.0, 86400.0 * 365, 0.5, -1.0]) for _ in range(4)]},
         "mem": rng.choice([0, 255, rng.randrange(1, 2**31)]),  # what uninitialised memory (np.empty padding) contains
+        "request": rng.choice([{}, {}, {"do_download": False}, {"do_download": False, "verbose": True}]),
     }
 
 
@@ -659,8 +671,10 @@ def scenarios_for(rng: random.Random, R: dict, layout: dict, tier: str) -> list:
                 steps.append(["request", plan])
             elif r < 0.8:
                 steps.append(["damage", rng.choice([{"kind": "trunc", "at": rng.randrange(size)}, {"kind": "flip", "at": rng.randrange(size), "mask": rng.choice([1, 0x80, 0xFF])}, {"kind": "delete"}])])
-            else:
+            elif r < 0.93:
                 steps.append(["request", None])
+            else:
+                steps.append(["request-noload", None])
         sc.append({"kind": "history", "steps": steps})
     return sc
 
@@ -726,7 +740,7 @@ def shrink(spec: dict, result: dict):
     if R["maze_ctor"] != "gen_dfs":
         yield dict(spec, cfg=dict(R, maze_ctor="gen_dfs", maze_ctor_kwargs={}))
     k = spec["knobs"]
-    for kk, val in (("threshold", 100), ("zanj", {"compress": True, "external_array_threshold": 256}), ("clock", {"t0": 1.7e9, "steps": [0.0]}), ("mem", 0)):
+    for kk, val in (("threshold", 100), ("zanj", {"compress": True, "external_array_threshold": 256}), ("clock", {"t0": 1.7e9, "steps": [0.0]}), ("mem", 0), ("request", {})):
         if k.get(kk) != val:
             yield dict(spec, knobs=dict(k, **{kk: val}))
     if spec["scenarios"] and spec["scenarios"][0]["kind"] == "history":
